@@ -16,14 +16,19 @@ LEAN_TARGETS = ["Asynkit.Props.C05", "Asynkit.Lemmas.GenEqC05"]
 PROPS_FILES = ["Asynkit/Props/C05.lean", "Asynkit/Lemmas/GenEqC05.lean"]
 DRIVERS = ["Proto"]
 TRUSTED = [
-    "translator/wrappers2lean.py regenerates Asynkit/Gen/Wrappers.lean from coroutine.py on every run (coro_iter, coro_await, awaitmethod, awaitmethod_iter, await_sync, syncfunction, aiter_sync; statement by statement, generators/coroutines segment by segment); Lemmas/GenEqC05.lean proves each generated segment equal to the model's transition; trusted there: the meaning of the method calls (Model/WrapRt.lean)",
-    "Lean 4.33 kernel; axioms ⊆ {propext, Classical.choice, Quot.sound} (audited per theorem each run)",
-    "hand-written model Asynkit/Model/Wrappers.lean (awaitSync, aiterSync, CoroStart.throw/close/done/result), tied to "
-    "coroutine.py:545-603 by this run's differential correspondence (lean/Drivers/Proto.lean `sync`/`aiter` lines)",
-    "MODELLED, NOT VERIFIED: CPython coroutine-object envelope, PEP 380/479, asyncio.Future.__await__ setting "
-    "`_asyncio_future_blocking` before yielding and refusing a second awaiter while it is set",
-    "CoroStart as repaired by the fix proposed under C01 (`_start` clears a captured future's blocking flag, "
-    "`__await__` sets it again): the flag functions of Model/Wrappers.lean describe that code",
+    'translated, not trusted: await_sync, syncfunction and aiter_sync are re-translated from coroutine.py on '
+    "every run (translator/wrappers2lean.py -> Gen/Wrappers.lean) and proved equal to the model's awaitSync / "
+    'aiterSync (Lemmas/GenEqC05.lean, 7 theorems); CoroStart.throw/close/done/result, which they call, by the C01'
+    ' unit (GenEqC01/GenEqC01W, audited by the C01 check)',
+    'Lean 4.33 kernel; axioms ⊆ {propext, Classical.choice, Quot.sound} (audited per theorem each run)',
+    'hand-written: the runtime vocabulary Model/WrapRt.lean (meaning of x.send/throw/close, CoroStart(...) as the'
+    " model's CS transformer, async iterators as one Body per __anext__) and Model/Proto.lean; the whole is "
+    "additionally run against the code by this run's differential correspondence (lean/Drivers/Proto.lean "
+    '`sync`/`aiter` lines)',
+    'MODELLED, NOT VERIFIED: CPython coroutine-object envelope, PEP 380/479, asyncio.Future.__await__ setting '
+    '`_asyncio_future_blocking` before yielding and refusing a second awaiter while it is set',
+    'the blocking-flag functions of Model/Wrappers.lean describe CoroStart as it is after fixes 59f4f3e / 7bda94b'
+    " (_start clears a captured future's flag, __await__ and throw() re-arm / clear it)",
 ]
 ASSUMPTIONS = [
     "domain of the property: the body does not swallow SynchronousAbort/GeneratorExit and then suspend again "
@@ -127,13 +132,26 @@ def gen_cleanup(rng):
     return body + [("ret", 5)]
 
 
+def chain_of(e):
+    """explicit chaining of an exception the body raised: type of `__cause__` and `__suppress_context__`"""
+    c = e.__cause__
+    return f"cause={('x:' + cm.cname(c)) if c is not None else '-'} suppress_context={int(bool(e.__suppress_context__))}"
+
+
+LAST_CHAIN = [None]
+
+
 def outcome(fn):
+    LAST_CHAIN[0] = None
     try:
         r = fn()
         return f"r:{cm.val(r)}", "-"
     except BaseException as e:  # noqa: BLE001
-        # the chaining clause of the property is about SynchronousError only
+        # the chaining clause of the property is about SynchronousError only ...
         c = e.__cause__ if isinstance(e, ak_coro.SynchronousError) else None
+        # ... the body's own exception must arrive as a native run delivers it
+        if not isinstance(e, ak_coro.SynchronousError):
+            LAST_CHAIN[0] = chain_of(e)
         return "x:" + cm.cname(e), ("x:" + cm.cname(c)) if c is not None else "-"
 
 
@@ -170,6 +188,7 @@ def _run_sync_real(stmts, loop, variant):
         c = env.main()
         g = cm.gen_coroutine(c) if gen else c
         out, cause = outcome(lambda: asynkit.await_sync(g))
+    env.chain = LAST_CHAIN[0]
     line = f"out={out} ; cause={cause} ; phase={cm.phase(c)} ; log={env.log()} ; {env.cv_line()}"
     return line, env, c
 
@@ -189,11 +208,14 @@ def _native_expect(stmts, loop):
         first = ("r", cm.val(e.value))
     except BaseException as e:  # noqa: BLE001
         first = ("x", cm.cname(e))
+        first_chain = chain_of(e)
     else:
         first = ("y", y)
-        if isinstance(y, asyncio.Future):
+        if asyncio.isfuture(y):
             y._asyncio_future_blocking = False      # the receiver's half of the handshake (what a Task does)
     res = {"first": first}
+    if first[0] == "x":
+        res["chain"] = first_chain
     if first[0] != "y":
         res["cv"] = env.cv_line()
         # completes without suspending: cross-check with a genuine event-loop run
@@ -221,7 +243,7 @@ def _native_expect(stmts, loop):
             # coroutine must nevertheless end up finalized — natively that is what close() does.
             res["abort"] = "yield"
             res["keep2"] = y2
-            if isinstance(y2, asyncio.Future):
+            if asyncio.isfuture(y2):
                 y2._asyncio_future_blocking = False
             res["caught"] = "cSyncAbort" in env.L[n_before:]
             if not res["caught"]:
@@ -283,6 +305,8 @@ def judge_sync(stmts, loop, variant="await_sync"):
         tags.add(f"nested-depth-{depth_of(stmts)}")
     if "cset" in cm.sexp(stmts):
         tags.add("contextvar-writes")
+    if exp["first"][0] == "x" and exp.get("chain", "").startswith("cause=x:"):
+        tags.add("body-raises-chained-exception")
     if variant.endswith("_gen"):
         tags.add("generator-based-coroutine")
     futs_used = [x for x in cm.sexp(stmts).replace("(", " ").replace(")", " ").split("fut ")[1:]]
@@ -296,6 +320,9 @@ def judge_sync(stmts, loop, variant="await_sync"):
         tags.add("completes")
         if a["out"] != exp["out"]:
             bad = ("await_sync result differs from the native run", exp["out"], a["out"])
+        elif exp["first"][0] == "x" and env.chain != exp["chain"]:
+            bad = ("the coroutine's own exception arrives with another __cause__/__suppress_context__ than in the "
+                   "native run", exp["chain"], env.chain)
         elif a["log"] != exp["log"]:
             bad = ("side effects differ from the native run", exp["log"], a["log"])
         elif a["phase"] != "done":
@@ -305,7 +332,7 @@ def judge_sync(stmts, loop, variant="await_sync"):
                    f"cv={a['cv']} ; reset={a['reset']}")
     else:
         y = exp["first"][1]
-        on_future = isinstance(y, asyncio.Future)
+        on_future = asyncio.isfuture(y)
         tags.add("suspends-on-future" if on_future else "suspends-on-token")
         if "l" in a["log"] or "c" in a["log"]:
             tags.add("suspension-inside-try-or-after-effects")
@@ -515,6 +542,8 @@ def key_of(kind, bad):
         slug = "stranded"
     elif "did not give" in w:
         slug = "no-SynchronousError"
+    elif "__cause__" in w:
+        slug = "exception-chain"
     elif "result differs" in w:
         slug = "result"
     elif "context-variable" in w:
